@@ -1555,18 +1555,21 @@ PROPS['C17'] = dict(
 
 PROPS['C14'] = dict(
     module='FlacModel.Props.C14',
-    theorems=['Flac.C14.prefix_decodes_complete_frames'],
+    theorems=['Flac.C14.prefix_decodes_complete_frames', 'Flac.decodeFrame_ext', 'Flac.decodeFrame_cut', 'Flac.local_readHeaderFields', 'Flac.local_decSubframes',
+              'Flac.C14.loc_of_decodes', 'Flac.C14.truncated_of_cut', 'Flac.C14.interrupted_decodes_complete_frames'],
     components=[CrashPrefix()],
     rule='60 (quick) / 3000 (thorough) encodes stopped before finalize (byte/sample/channel writer, declared and undeclared totals, every seek-table policy, with and without padding); '
          'the bytes that reached the stream are cut at EVERY byte (two thirds of the cases) or after every underlying write call, and each prefix is decoded by the sample or channel '
-         'reader: the samples delivered must be exactly those of the frames wholly contained in the prefix, end status clean only on a frame boundary of an undeclared-length stream; '
-         'the Lean file-decode model predicts count and status for every prefix',
-    claim='prefix_decodes_complete_frames: for any sequence of frames followed by a truncated frame (or nothing), the readers\' frame loop delivers exactly the complete frames in order and '
-          'then stops - cleanly if nothing follows, with an end-of-data error otherwise; proved by induction over the frame list for every list length.',
-    note='partial: frame locality (a frame decodes identically whatever follows it) and truncation detection (a strict prefix of a frame runs out of data) are hypotheses of the theorem '
-         '(Loc, Truncated); they are exhibited on every byte prefix by the correspondence run. The declared-total variant and the provisional header\'s parseability are covered by the run only.',
+         'reader: the unfinished file must parse into exactly the whole blocks written, the samples delivered must be exactly those of the frames wholly contained in the prefix, end status clean only on a '
+         'frame boundary of an undeclared-length stream; the Lean file-decode model predicts count and status for every prefix',
+    claim='interrupted_decodes_complete_frames: for ANY frames that each decode using all of their bytes, followed by ANY strict prefix of one more such frame (or nothing), the readers\' frame loop delivers exactly '
+          'the complete frames in order and then stops - cleanly on a frame boundary, with an end-of-data error otherwise. No locality hypothesis remains: decodeFrame_ext (a decodable frame decodes identically whatever '
+          'follows it) and decodeFrame_cut (a strict prefix of a decodable frame fails with end-of-data, in the header or in the body, never with another error or a value) are proved from the left-to-right structure '
+          'of every parser (Local: extension, truncation and suffix properties, closed under sequencing; proved for the bit readers, the coded number, the header, Rice partitions, residuals, every subframe kind and the '
+          'subframe decoder).',
+    note='The declared-total variant of the loop (remaining-sample bookkeeping) and the parseability of the provisional header (placeholder seek table, C11) are covered by the crash component, not by this theorem.',
     trusted_base=COMMON_TRUST,
-    assumptions=['Loc and Truncated (frame locality, prefix determinism of the frame parser)'],
+    assumptions=[],
 )
 
 PROPS['C15'] = dict(
